@@ -333,9 +333,38 @@ func (v *valuesVisitor) valueSatisfiesScalar(value ast.Value, definitionTypeRef 
 	case bytes.Equal(scalarName, literal.STRING):
 		return v.valueSatisfiesScalarString(value, definitionTypeRef)
 	default:
-		// custom scalar values could be of any kind
-		return true
+		// custom scalar values could be of any kind, but they still have to be well-formed
+		return v.customScalarLiteralIsWellFormed(value)
 	}
+}
+
+// customScalarLiteralIsWellFormed checks what holds for every literal regardless of its type: input
+// object values have unique field names (spec 5.6.3) and all variables are defined (spec 5.8.3).
+func (v *valuesVisitor) customScalarLiteralIsWellFormed(value ast.Value) bool {
+	valid := true
+	switch value.Kind {
+	case ast.ValueKindVariable:
+		if _, exists := v.operationVariableDefinition(value.Ref); !exists {
+			v.handleUndefinedVarError(value)
+			valid = false
+		}
+	case ast.ValueKindList:
+		for _, i := range v.operation.ListValues[value.Ref].Refs {
+			if !v.customScalarLiteralIsWellFormed(v.operation.Value(i)) {
+				valid = false
+			}
+		}
+	case ast.ValueKindObject:
+		if v.objectValueHasDuplicateFields(value.Ref) {
+			valid = false
+		}
+		for _, i := range v.operation.ObjectValues[value.Ref].Refs {
+			if !v.customScalarLiteralIsWellFormed(v.operation.ObjectFieldValue(i)) {
+				valid = false
+			}
+		}
+	}
+	return valid
 }
 
 func (v *valuesVisitor) valueSatisfiesScalarID(value ast.Value, definitionTypeRef int) bool {
